@@ -444,3 +444,129 @@ Proof.
   destruct (segments_sum _ len Hall_sorted eq_refl Hlast) as (ls & Hls & Hsum & Hpos).
   rewrite Hls, leaves_node_leaf. split; [exact Hsum|intros _; exact Hpos].
 Qed.
+
+(* ---------------------------------------------------------------------------------------- *)
+(* instruction starts, hints *)
+Lemma instr_starts_app a : forall off b,
+  instr_starts off (a ++ b) = instr_starts off a ++ instr_starts (off + instr_sizes a) b.
+Proof.
+  induction a as [|i a IH]; intros off b; cbn [app instr_starts].
+  - f_equal. cbn. lia.
+  - f_equal. rewrite IH. f_equal. f_equal. unfold instr_sizes. cbn [map sumZ]. lia.
+Qed.
+
+Lemma instr_starts_length is : forall off, length (instr_starts off is) = length is.
+Proof. induction is; intros; cbn; [reflexivity|f_equal; auto]. Qed.
+
+Lemma instr_starts_nth is : forall off m,
+  (m < length is)%nat ->
+  nth_error (instr_starts off is) m = Some (off + instr_sizes (firstn m is)).
+Proof.
+  induction is as [|i is IH]; intros off m Hm; [cbn in Hm; lia|].
+  destruct m as [|m]; cbn [instr_starts nth_error firstn].
+  - f_equal. cbn. lia.
+  - rewrite IH by (cbn in Hm; lia). f_equal. unfold instr_sizes. cbn [map sumZ]. lia.
+Qed.
+
+Lemma assemble_hints_incl is : forall off pc,
+  In pc (assemble_hints off is) -> In pc (instr_starts off is).
+Proof.
+  induction is as [|i is IH]; intros off pc H; [destruct H|].
+  cbn [assemble_hints instr_starts] in *. apply in_app_or in H as [H|H].
+  - destruct (i_hints i); [|destruct H]. destruct H as [<-|[]]. left. reflexivity.
+  - right. apply IH. exact H.
+Qed.
+
+(* exactly the instructions that carry hints *)
+Lemma assemble_hints_spec is : forall off pc,
+  In pc (assemble_hints off is) <->
+  exists m i, nth_error is m = Some i /\ i_hints i = true /\ pc = off + instr_sizes (firstn m is).
+Proof.
+  induction is as [|i is IH]; intros off pc.
+  - split; [intros []|]. intros (m & i & H & _). destruct m; discriminate.
+  - cbn [assemble_hints]. rewrite in_app_iff, IH. split.
+    + intros [H|(m & j & Hm & Hj & ->)].
+      * destruct (i_hints i) eqn:Hi; [|destruct H]. destruct H as [<-|[]].
+        exists 0%nat, i. split; [reflexivity|]. split; [exact Hi|cbn; lia].
+      * exists (S m), j. split; [exact Hm|]. split; [exact Hj|].
+        cbn [firstn]. unfold instr_sizes. cbn [map sumZ]. lia.
+    + intros (m & j & Hm & Hj & ->). destruct m as [|m].
+      * injection Hm as ->. left. rewrite Hj. left. cbn. lia.
+      * right. exists m, j. split; [exact Hm|]. split; [exact Hj|].
+        cbn [firstn]. unfold instr_sizes. cbn [map sumZ]. lia.
+Qed.
+
+Lemma instr_starts_sorted is : pos_instrs is -> forall off,
+  StronglySorted Z.lt (instr_starts off is)
+  /\ Forall (fun x => off <= x < off + instr_sizes is) (instr_starts off is).
+Proof.
+  induction 1 as [|i is Hi His IH]; intros off; cbn [instr_starts]; [split; constructor|].
+  destruct (IH (off + i_size i)) as [IHs IHb].
+  assert (H0 : 0 <= instr_sizes is).
+  { apply instr_sizes_nonneg. eapply Forall_impl; [|exact His]. cbv beta. intros; lia. }
+  unfold instr_sizes in *. cbn [map sumZ]. split.
+  - constructor; [exact IHs|]. eapply Forall_impl; [|exact IHb]. cbv beta. intros; lia.
+  - constructor; [lia|]. eapply Forall_impl; [|exact IHb]. cbv beta. intros; lia.
+Qed.
+
+Lemma assemble_hints_sorted is : pos_instrs is -> forall off,
+  StronglySorted Z.lt (assemble_hints off is)
+  /\ Forall (fun x => off <= x < off + instr_sizes is) (assemble_hints off is).
+Proof.
+  induction 1 as [|i is Hi His IH]; intros off; cbn [assemble_hints]; [split; constructor|].
+  destruct (IH (off + i_size i)) as [IHs IHb].
+  assert (H0 : 0 <= instr_sizes is).
+  { apply instr_sizes_nonneg. eapply Forall_impl; [|exact His]. cbv beta. intros; lia. }
+  assert (Hb' : Forall (fun x => off < x < off + instr_sizes (i :: is)) (assemble_hints (off + i_size i) is)).
+  { eapply Forall_impl; [|exact IHb]. unfold instr_sizes. cbn [map sumZ]. cbv beta. intros; lia. }
+  destruct (i_hints i); cbn [app]; split.
+  - constructor; [exact IHs|]. eapply Forall_impl; [|exact Hb']. cbv beta. intros; lia.
+  - constructor; [unfold instr_sizes in *; cbn [map sumZ]; lia|].
+    eapply Forall_impl; [|exact Hb']. cbv beta. intros; lia.
+  - exact IHs.
+  - eapply Forall_impl; [|exact Hb']. cbv beta. intros; lia.
+Qed.
+
+(* ---------------------------------------------------------------------------------------- *)
+(* a statement's recorded start is where its first instruction starts *)
+Lemma concat_firstn_skipn {A} (c : list (list A)) k :
+  concat c = concat (firstn k c) ++ concat (skipn k c).
+Proof. rewrite <- concat_app, firstn_skipn. reflexivity. Qed.
+
+Lemma infos_from_nth c : forall off iidx k s,
+  nth_error c k = Some s ->
+  nth_error (infos_from off iidx c) k =
+    Some {| s_start := off + instr_sizes (concat (firstn k c));
+            s_end := off + instr_sizes (concat (firstn k c)) + instr_sizes s;
+            s_instr_idx := iidx + Z.of_nat (length (concat (firstn k c))) |}.
+Proof.
+  induction c as [|s0 r IH]; intros off iidx k s Hk; [destruct k; discriminate|].
+  destruct k as [|k]; cbn [infos_from nth_error firstn concat].
+  - injection Hk as ->. f_equal. cbn. f_equal; lia.
+  - rewrite (IH _ _ _ _ Hk). rewrite instr_sizes_app, app_length. f_equal. f_equal; lia.
+Qed.
+
+Lemma statement_start_is_instruction_start max c seg_lens L k s info :
+  compile_layout max c seg_lens = Ok L ->
+  nth_error c k = Some s -> nth_error (l_infos L) k = Some info ->
+  s_start info = instr_sizes (concat (firstn k c))
+  /\ s_end info = s_start info + instr_sizes s
+  /\ s_instr_idx info = Z.of_nat (length (concat (firstn k c)))
+  /\ (s <> [] ->
+      nth_error (instr_starts 0 (concat c)) (Z.to_nat (s_instr_idx info)) = Some (s_start info)).
+Proof.
+  intros HL Hk Hinfo. destruct (compile_layout_spec _ _ _ _ HL) as (Hinfos & _).
+  rewrite Hinfos, (infos_from_nth _ _ _ _ _ Hk) in Hinfo. injection Hinfo as <-. cbn.
+  repeat split; try lia. intros Hne.
+  rewrite Nat2Z.id.
+  assert (Hm : (length (concat (firstn k c)) < length (concat c))%nat).
+  { rewrite (concat_firstn_skipn c k) at 1. rewrite app_length.
+    assert (Hsk : skipn k c = s :: skipn (S k) c).
+    { clear - Hk. revert k Hk. induction c as [|x c IH]; intros [|k] Hk; try discriminate.
+      - injection Hk as ->. reflexivity.
+      - cbn. apply IH. exact Hk. }
+    rewrite Hsk. cbn [concat]. rewrite app_length. destruct s; [contradiction|cbn; lia]. }
+  rewrite (instr_starts_nth _ _ _ Hm). f_equal.
+  rewrite (concat_firstn_skipn c k) at 1.
+  rewrite firstn_app, Nat.sub_diag, firstn_all. cbn [firstn]. rewrite app_nil_r. lia.
+Qed.
